@@ -34,3 +34,7 @@ package concurrent
 //@   ensures implies(is(a[0], *Atom) && err == nil, a[0].(*Atom).Val == r)
 //@   ensures implies(is(a[0], *Atom), unlocked(fieldaddr(a[0].(*Atom), Mutex)))
 //@   ensures implies(!is(a[0], *Atom), err != nil)
+
+// registration of the builtins: needs a valid environment
+//@ func Load(env) ()
+//@   requires validEnvVal(env)
